@@ -214,7 +214,8 @@ LEVELS = {
             "note": "Third-party service registry (ClientClose) and the built-in listener registry for SMB and External listeners (ListenerStart/ListenerRemove with the DB and the advertised set as models); HTTP listeners (real sockets) and ListenerEdit are outside."},
     "C12": {"text": "Bounded symbolic execution of the real (*HTTP).request with real net/http header canonicalisation and strings code over symbolic header/URI/user-agent values; the protocol layer is a recorder, so 'reached' is observed exactly.",
             "note": "gin.Context is built directly (no router); parseAgentRequest stubbed as recorder inside gosx."},
-    "C15": {"text": "Bounded symbolic execution of the real SOCKS negotiation/request parsing (with the real bufio.Reader), the proxy connection handler and the COMMAND_SOCKET callbacks against a reference RFC 1928 parser; the client's byte stream and its TCP segmentation are symbolic.",
+    "C15": {"technique_suffix": "; two-thread interleavings of the socket/proxy/forward table operations explored by a bounded scheduler (<= 2 voluntary switches)",
+            "text": "Bounded symbolic execution of the real SOCKS negotiation/request parsing (with the real bufio.Reader), the proxy connection handler and the COMMAND_SOCKET callbacks against a reference RFC 1928 parser; the client's byte stream and its TCP segmentation are symbolic.",
             "note": "net.Conn is a scripted in-memory connection (same code natively); the reader goroutine of a client is run to completion after the handler (not interleaved); table operations of two threads run under the bounded scheduler."},
     "C13": {"text": "Bounded symbolic execution of the real Builder.PatchConfig and ParseWorkingHours against a reference reader transcribed from Demon.c DemonConfig(); every enumerated option and symbolic digits/integers; a crossed assignment of one option shows as a field mismatch.",
             "note": "UTF-16 encoder and regexp are stubs stated in the harness; no native replay (the stubs stand for x/text and regexp)."},
@@ -235,6 +236,7 @@ LEVELS = {
     "C08": {"text": "Bounded symbolic execution of the real PivotAddJob/BuildPayloadMessage wrapping for chains of 1..3 hops, unwrapped by a reference implementation of the Demon's pipe framing with each hop's own key; AES-CTR is an uninterpreted key stream so a layer encrypted under the wrong key cannot decode.",
             "note": "Trusted: go/ssa, gosx, z3 (QF_UFBV), the reference decoder transcribed from Command.c/TransportSmb.c."},
     "C04": {"text": "Bounded symbolic execution of GetQueuedJobs/AddJobToQueue/UploadMemFileInChunks against a FIFO reference; sizes are symbolic so the 30 MB boundary and chunk boundaries are decided by the solver, not sampled.",
+            "technique_suffix": "; two-thread interleavings explored by a bounded scheduler whose context switches are path decisions (<= 2 voluntary switches), confirmed natively under the Go race detector",
             "note": "Sequential histories, plus two concurrent threads (enqueue against check-in, enqueue against enqueue) under the bounded scheduler with at most two voluntary context switches; the lost update on the unlocked queue is a known finding (known_findings.json), confirmed natively by the race detector."},
     "C18": {"text": "Partial: bounded symbolic execution of the real scanner, parser and evaluator (hclsyntax expression*.go with the cty operator and conversion functions) on expression and template sources whose operator, selector and literal bytes are symbolic; the value (or the presence of an error diagnostic) is compared with reference semantics transcribed from the language specification; the solver decides the comparison for every byte value in the bound.",
             "note": "Shapes are fixed (two binary operators over three operands; one selector; seven template forms); operands are concrete small numbers/booleans because cty numbers are big.Float; see bounds for what is outside."},
